@@ -289,6 +289,8 @@ FINDINGS = [
          what="lcd.message(top, bottom) on a display with rows=1 wrote the bottom text over the top text (the host skips it)", cases=[]),
     dict(id="KF-C18-negative-speed", property="C18", status="fixed", commit="af8f6e9",
          what="lcd.animate(.., speed_ms=-5) (constant or run-time) became a huge unsigned period: the animation never advanced or finished; the host clamps to 0", cases=[]),
+    dict(id="KF-C16-negative-durations", property="C16", status="fixed", commit="c5ade3e",
+         what="negative durations of play_tone / beep gaps / sweep wrapped around as unsigned long: the tone sounded for weeks (every sound must be bounded)", cases=[]),
     dict(id="KF-C14-lcd-rebind", property="C14", status="open", commit=None,
          what="one name bound first to a parallel LCD and later to an I2C LCD (or the reverse): both libraries are requested, but the emitter keeps only the first display (one header, one object); outside the documented style, like KF-C05-rebind",
          cases=c14_rebind_cases()),
